@@ -111,6 +111,18 @@ def cases(tier, seed=0):
                     rhs.update({"logint": fs.log_integral(), "Ex": fs.integrate("x"), "Exx": fs.integrate("xx'"),
                                 "lin": fs.integrate("(Ax+a)", A_mat=fs.Lambda, a_vec=fs.nu),
                                 "quad": fs.integrate("(Ax+a)'(Bx+b)", A_mat=fs.Lambda, b_vec=fs.nu)})
+                if kind in ("measure", "pdf") and R == 2:
+                    def hi(o):
+                        # third / fourth order integrals with PER-COMPONENT coefficients taken from the object's own fields
+                        return {"cub_in": o.integrate("(Ax+a)(Bx+b)'(Cx+c)", A_mat=o.Lambda, a_vec=o.nu, B_mat=o.Lambda, C_mat=o.Lambda, c_vec=o.nu),
+                                "cub_out": o.integrate("(Ax+a)'(Bx+b)(Cx+c)'", A_mat=o.Lambda, B_mat=o.Lambda, b_vec=o.nu, C_mat=o.Lambda),
+                                "quart_in": o.integrate("(Ax+a)'(Bx+b)(Cx+c)'(Dx+d)", A_mat=o.Lambda, B_mat=o.Lambda, b_vec=o.nu, C_mat=o.Lambda, D_mat=o.Lambda, d_vec=o.nu),
+                                "quart_out": o.integrate("(Ax+a)(Bx+b)'(Cx+c)(Dx+d)'", A_mat=o.Lambda, a_vec=o.nu, B_mat=o.Lambda, C_mat=o.Lambda, D_mat=o.Lambda),
+                                "xbxx": o.integrate("xb'xx'", b_vec=o.nu),
+                                "xAxx": o.integrate("x(A'x + a)x'", A_mat=o.nu[:, None], a_vec=o.ln_beta[:, None]),
+                                "quad_out": o.integrate("(Ax+a)(Bx+b)'", A_mat=o.Lambda, a_vec=o.nu, B_mat=o.Lambda)}
+                    hl, hr = hi(f), hi(fs)
+                    lhs.update({k: v[J(idx)] for k, v in hl.items()}); rhs.update(hr)
                 if kind in ("pdf", "diagpdf"):
                     lhs.update({"H": f.entropy()[J(idx)], "marg": {k: v[J(idx)] for k, v in _obj(f.get_marginal(J([1]))).items()},
                                 "kl": f.kl_divergence(f.slice(J([0])))[J(idx)]})
